@@ -547,6 +547,14 @@ class TTFInterpolatablePreProcessor(BaseInterpolatablePreProcessor):
                     needs_decomposition.add(glyph)
                     break
 
+                # A 2x2 value that does not fit F2Dot14 makes fontTools' glyf pen
+                # decompose the composite while it is drawn, separately for each
+                # master and from that master's glyphs alone (an empty placeholder
+                # in a sparse master): decompose it here, jointly, instead
+                if any(s > 2 or s < -2 for transform in transforms for s in transform):
+                    needs_decomposition.add(glyph)
+                    break
+
 
 class OTFInterpolatablePreProcessor(BaseInterpolatablePreProcessor):
     """Interpolatable pre-processor for CFF-flavored fonts.
